@@ -578,5 +578,68 @@ func TestC08(t *testing.T) {
 	}
 	R.Sample(fmt.Sprintf("encode chain: source %v as %s -> %v", sources[cjobs[len(cjobs)/2].src], cjobs[len(cjobs)/2].from, cjobs[len(cjobs)/2].chain))
 	R.Sample(fmt.Sprintf("junk strings e.g. %q %q %q", junk[17], junk[2000], junk[len(junk)-1]))
+	// ---- the encode command reading a trickling standard input ------------------------------------
+	// A pipe delivers what the producer has written so far: the first reads return 1 byte, 1 byte, 2 bytes,
+	// then the rest. (Sequential: os.Stdin is process-wide. The pauses only make the short reads likely;
+	// nothing is asserted about time.)
+	stdinStreams := [][]vegeta.Result{{p[1]}, {p[1], p[2], p[0]}, {p[5], p[3], p[1]}}
+	for si, rs := range stdinStreams {
+		for _, from := range cresCodecs {
+			for _, to := range []string{"gob", "json", "csv"} {
+				data := cresEncode(from.name, rs)
+				pr, pw, err := os.Pipe()
+				if err != nil {
+					t.Fatal(err)
+				}
+				go func() {
+					defer pw.Close()
+					for _, n := range []int{1, 1, 2} {
+						if len(data) > n {
+							pw.Write(data[:n])
+							data = data[n:]
+							time.Sleep(15 * time.Millisecond)
+						}
+					}
+					pw.Write(data)
+				}()
+				saved := os.Stdin
+				os.Stdin = pr
+				out := filepath.Join(dir, fmt.Sprintf("stdin-%d-%s-%s.out", si, from.name, to))
+				var cerr error
+				func() {
+					defer func() {
+						if x := recover(); x != nil {
+							cerr = fmt.Errorf("panic: %v", x)
+						}
+					}()
+					cerr = encode([]string{"stdin"}, to, out)
+				}()
+				os.Stdin = saved
+				pr.Close()
+				R.Eval(1)
+				R.Trans(len(rs))
+				R.Part("encode_stdin_trickle", from.name+"->"+to, 1)
+				R.Distinct(fmt.Sprint("stdin", si, from.name, to))
+				ctx := map[string]any{"source_encoding": from.name, "to": to, "stream": cresBriefs(rs), "stdin": "pipe delivering 1, 1, 2 bytes, then the rest"}
+				if cerr != nil {
+					ctx["error"] = cerr.Error()
+					R.Violation("encode-stdin:"+from.name+":command-fails-on-a-valid-stream", ctx)
+					continue
+				}
+				b, _ := os.ReadFile(out)
+				os.Remove(out)
+				got, derr := cresDecodeAll(cresCodecByName(to).dec(bytes.NewReader(b)), len(rs)+2)
+				same := len(got) == len(rs)
+				for i := 0; same && i < len(rs); i++ {
+					same = cresSame(got[i], rs[i])
+				}
+				if !same || derr != io.EOF {
+					ctx["decoded"], ctx["end"] = cresBriefs(got), fmt.Sprint(derr)
+					R.Violation("encode-stdin:"+from.name+":output-differs-from-the-input-sequence", ctx)
+				}
+			}
+		}
+	}
+
 	R.Finish(t)
 }
